@@ -774,13 +774,21 @@ def _skip_event(*events, **kwargs):
     if changed is None:
         return False
     for e in events:
-        for p in changed:
-            if what == 'value':
+        if isinstance(changed, dict):
+            # Per watched parameter: the (sub-path, what) pairs depended on
+            # through it, or None if the parameter itself is depended on
+            subpaths = changed.get(e.name)
+            if subpaths is None:
+                return False
+        else:
+            subpaths = [(p, what) for p in changed]
+        for p, pwhat in subpaths:
+            if pwhat == 'value':
                 old = Undefined if e.old is None else _getattrr(e.old, p, None)
                 new = Undefined if e.new is None else _getattrr(e.new, p, None)
             else:
-                old = Undefined if e.old is None else _getattrr(e.old.param[p], what, None)
-                new = Undefined if e.new is None else _getattrr(e.new.param[p], what, None)
+                old = Undefined if e.old is None else _getattrr(e.old.param[p], pwhat, None)
+                new = Undefined if e.new is None else _getattrr(e.new.param[p], pwhat, None)
             if not Comparator.is_equal(old, new):
                 return False
     return True
@@ -2356,7 +2364,10 @@ class Parameters:
         for method, queued, on_init, constant, dynamic in type(obj).param._depends['watch']:
             # On initialization set up constant watchers; otherwise
             # clean up previous dynamic watchers for the updated attribute
-            dynamic = [d for d in dynamic if attribute is None or d.spec.split(".")[0] == attribute]
+            # All the dynamic watchers of an affected method are replaced
+            # (also those that go through its other attributes)
+            if attribute is not None and not any(d.spec.split(".")[0] == attribute for d in dynamic):
+                dynamic = []
             if init:
                 constant_grouped = defaultdict(list)
                 for dep in _resolve_mcs_deps(obj, constant, []):
@@ -2447,8 +2458,21 @@ class Parameters:
         if dynamic_dep is None:
             subparams, callback, what = None, None, param_dep.what
         else:
-            subparams, callback, what = self_._resolve_dynamic_deps(
-                obj, dynamic_dep, param_dep, attribute)
+            # A watched parameter can hold the subobject of several
+            # dependencies ('a' in 'a.x' and 'a.y') and be the final
+            # parameter of others ('x' in 'a.x' next to 'b' in 'a.b.y'):
+            # collect what has to be compared per parameter
+            subparams, callback, what = {}, None, param_dep.what
+            for ddep, pdep in group:
+                sps, cb, pwhat = self_._resolve_dynamic_deps(obj, ddep, pdep, attribute)
+                callback = callback or cb
+                if sps is None:
+                    subparams[pdep.name] = None
+                elif subparams.get(pdep.name, ()) is not None:
+                    compared = subparams.setdefault(pdep.name, [])
+                    compared.extend((sp, pwhat) for sp in sps if (sp, pwhat) not in compared)
+            if all(sps is None for sps in subparams.values()):
+                subparams = None
 
         mcaller = _m_caller(obj, name, what, subparams, callback)
         return dep_obj.param._watch(
